@@ -2,6 +2,7 @@
 from __future__ import annotations
 
 import ast
+import re
 
 from typing import Any
 
@@ -116,7 +117,10 @@ def run(rep: Report, ctx: Any) -> str:
     for e in ji.emissions.values():
         if e.kind != "CODE" or not e.labels:
             continue
-        if e.hole.endswith(("python_name", "class_info.name", "module_name", "class_name")) and e.hole == e.expr:
+        # (a template `set` variable is canonical and reads as its parenthesised definition, e.g. `(model.class_info.module_name)`)
+        m_ = re.fullmatch(r"\(([\w.\[\]*]+)\)", e.hole)  # a set variable bound to a plain attribute chain
+        chain = m_.group(1) if m_ else e.hole
+        if chain.endswith(("python_name", "class_info.name", "module_name", "class_name")) and e.hole == e.expr and re.fullmatch(r"[\w.\[\]*()+ ]+", chain):
             n_e += 1
             extra = e.labels - {IDENT}
             rep.check(not extra, "R09.2", f"{e.template}::{e.macro}::{e.expr}#{e.ordinal}",
